@@ -32,6 +32,39 @@ def run(ctx, chk):
     r1(ctx, chk)
     r2(ctx, chk)
     r3(ctx, chk)
+    r4(ctx, chk)
+
+
+def r4(ctx, chk):
+    """the year field reaches the parser: DateParser.parse first removes whatever the timezone table matches at the end of
+    the string, so a four-digit year written after '-' must not be matched by one of the table's numeric-offset spellings
+    (table analysis: every year 0001..9999 in 'DD-MM-YYYY' against the end-anchored table patterns, as the code compiles them)"""
+    import regex
+    from .c16 import tz_model
+    rule = "C07.R4"
+    tl, entries, parts = tz_model(ctx, rule)
+    # the pop happens on the string handed to the absolute parser
+    dp = ctx.ix.func("dateparser.date_parser:DateParser.parse")
+    pops = [n for n in iter_own_nodes(dp.node) if isinstance(n, ast.Call) and ast.unparse(n.func) == "pop_tz_offset_from_string"]
+    if len(pops) != 1:
+        raise AnalysisError(rule, "DateParser.parse: the timezone pop is not found")
+    numeric = [(name, pat) for name, pat, off in entries if any(ch.isdigit() for ch in pat)]   # patterns that spell digits
+    chk.floor(rule, len(numeric), 100, "numeric-offset patterns of the timezone table")
+    big = regex.compile("|".join("(?:%s)" % p for _, p in numeric), regex.I)
+    shadowed = []
+    for y in range(1, 10000):
+        s_ = "01-02-%04d" % y
+        if big.search(s_):
+            who = next(name for name, p in numeric if regex.search(p, s_, regex.I))
+            shadowed.append((y, who))
+    for y, who in shadowed:
+        chk.ob(rule, "the year %04d in 'DD-MM-%04d' is not taken for a UTC offset" % (y, y), False,
+               "the table entry %s matches '-%04d' at the end of the string: the year is removed as a timezone before the date is parsed and "
+               "the current year is used instead" % (who, y),
+               key={"year": "%04d" % y, "construct": "year shadowed by a numeric offset spelling"}, file="dateparser/timezones.py",
+               function="timezone_info_list", line=None)
+    chk.ob(rule, "of the years 0001..9999 written as 'DD-MM-YYYY', %d are not matched by the timezone table" % (9999 - len(shadowed)), True)
+    chk.extra["years_shadowed_by_offsets"] = ["%04d" % y for y, _ in shadowed]
 
 
 def _local_dict(fn, name):
